@@ -231,11 +231,32 @@ def _parse_check(rule):
         return _checks.FalseCheck()
 
 
+def _is_list_rule(rule):
+    """Whether rule has the shape of the old list-of-lists syntax."""
+
+    if not isinstance(rule, (list, tuple)):
+        return False
+    for inner_rule in rule:
+        if isinstance(inner_rule, str):
+            continue
+        if not isinstance(inner_rule, (list, tuple)):
+            return False
+        if not all(isinstance(r, str) for r in inner_rule):
+            return False
+    return True
+
+
 def _parse_list_rule(rule):
     """Translates the old list-of-lists syntax into a tree of Check objects.
 
     Provided for backwards compatibility.
     """
+
+    # Anything but a list of strings and lists of strings is not a rule;
+    # fail closed rather than guess what was meant
+    if not _is_list_rule(rule):
+        LOG.error('Failed to understand rule %s', rule)
+        return _checks.FalseCheck()
 
     # Empty rule defaults to True
     if not rule:
